@@ -308,6 +308,9 @@ class Plugin:
                 # handled by context (or not worth tracking)
                 return
             obj = getattr(cls, attr)
+            if isinstance(obj, property):
+                # str(property) contains a memory address, which differs from process to process
+                obj = obj.fget
             try:
                 return strax.deterministic_hash(inspect.getsource(obj))
             except TypeError:
